@@ -209,7 +209,7 @@ class Gates(object):
             tgt = self.prog.lookup(d) if d else None
             if isinstance(tgt, list) and len(tgt) == 1:
                 g = tgt[0]
-                if len(list(own_nodes(g.node))) < 120:
+                if len(list(own_nodes(g.node))) < 600:
                     binds = {}
                     for p, a in zip(g.params, e.args):
                         binds[p] = self.eval(f, a, v, env)
